@@ -221,6 +221,7 @@ void poison_entry(World* w, uint64_t key, uint64_t eseed, const engine::Position
 std::string book_substitute(World* w, const std::string& line);
 void book_check_bestmove(World* w, GoRec& g);
 void book_teardown(World* w);
+void pristine_server_start_once();
 
 }  // namespace sim
 
